@@ -368,6 +368,9 @@ func errorSource(v ssa.Value) (ssa.Value, bool) {
 // closure lives in a heap cell); returns the value most recently stored into
 // the cell when that is unambiguous (a store earlier in the same block, or the
 // only store), else v.
+// ThroughCell resolves a load from a local cell (a variable captured by a closure) to the value stored in it.
+func ThroughCell(v ssa.Value) ssa.Value { return throughCell(v) }
+
 func throughCell(v ssa.Value) ssa.Value {
 	ld, ok := v.(*ssa.UnOp)
 	if !ok || ld.Op != token.MUL {
